@@ -191,15 +191,15 @@ def main():
     ops, pairs = F.rule_opcodes()
     both = sorted(set(pairs) | {(b, a) for a, b in pairs})
     texts = F.consuming_singles(ops + ["SMOD", "SAR"])
-    texts += F.f_rule_singles(ops, contexts=("stack", "consumed"))[:: (2 if tier == "quick" else 1)]
-    texts += F.f_rule_chains(ops, depth=3)
-    texts += F.f_rule_pairs(both, consts=[0, 1, F.MASK], contexts=("stack",))[:: (3 if tier == "quick" else 1)]
-    texts += F.f_mem((2,), deltas=[0, 32])
+    texts += F.f_rule_singles(ops, contexts=("stack", "consumed"))[:: (4 if tier == "quick" else 1)]
+    texts += F.f_rule_chains(ops, depth=3)[:: (2 if tier == "quick" else 1)]
+    texts += F.f_rule_pairs(both, consts=[0, 1, F.MASK], contexts=("stack",))[:: (6 if tier == "quick" else 1)]
+    texts += F.f_mem((2,), deltas=[0, 32])[:: (2 if tier == "quick" else 1)]
     texts += F.f_mem_consuming()
     texts += F.f_rule_existing()[:: (48 if tier == "quick" else 2)]
     texts += F.f_squares(sorted(set(ops) | {"MUL", "ADD", "EXP", "SUB", "DIV"}))
     texts += F.f_exh(2 if tier == "quick" else 3)
-    texts += F.f_exh(3, vocab=F.V_EXH2)[:: (3 if tier == "quick" else 1)]
+    texts += F.f_exh(3, vocab=F.V_EXH2)[:: (5 if tier == "quick" else 1)]
     if tier == "thorough":
         texts += F.f_exh(4, vocab=F.V_EXH2)[::16]
     if tier == "thorough":
@@ -210,13 +210,13 @@ def main():
     osets = [gasol.optset("none", "gas", True, True, "greedy"), gasol.optset("none", "size", False, True, "greedy"),
              gasol.optset("storage", "gas", True, False, "greedy"), gasol.optset("partition", "length", True, True, "greedy")]
     for k, o in enumerate(osets):
-        g = 1 if k == 0 else 3
+        g = 1 if k == 0 else (5 if tier == "quick" else 3)
         jobs = [("text", t) for i, t in enumerate(texts) if i % g == 0]
         nd = 1 if tier == "quick" else 4
         for d in [docs[(k * nd + i) % len(docs)] for i in range(nd)]:
-            for lo in range(0, 40 if tier == "quick" else 120, 20):
+            for lo in range(0, 20 if tier == "quick" else 120, 20):
                 jobs.append(("doc", d, lo, lo + 20))
-        tasks.append((o, jobs, 300))
+        tasks.append((o, jobs, 100))
     ub = gasol.optset("none", "gas", True, True, "ub-greedy")
     tasks.append((ub, [("ub", t) for i, t in enumerate(texts) if i % (12 if tier == "quick" else 1) == 0], 300))
     results, _ = pool.run(tasks, "checks.c16:job", job_timeout=600)
